@@ -1,8 +1,9 @@
 """C06 - encryption, key agreement and sharing invert correctly; bad input is rejected (DESIGN.md section 4, C06)."""
 import collections
+import os
 import random
 
-from vlib import core, gen_enc
+from vlib import core, gen_enc, gen_mpc
 
 SPEC = "trace/EncTrace.tla"
 WRAPS = ["rand_bytes"]
@@ -15,7 +16,7 @@ def nontrivial(e):
     # (key generation events and refused degenerate parameters do not count)
     if e.get("op") in GEN_OPS:
         return False
-    if e.get("op") == "sss" and not e.get("recs"):
+    if e.get("op") in ("sss", "sssx") and not e.get("recs"):
         return False
     return True
 
@@ -127,6 +128,8 @@ def run(tier, seed):
         pc = pc_cases(rng, tier)
         if pc:
             go("pairing-b12", "b12-381", pc, shuffle=False)
+    if os.environ.get("C06_EXT") != "0":
+        ext_run(ev, conf, wd, rng, tier)
     return conf.finish()
 
 
@@ -175,6 +178,109 @@ def pc_cases(rng, tier):
     for _ in range(2 if quick else 8):
         cases.append("pct %s" % sd())
     return cases
+
+
+# ---------------------------------------------------------------------------------------------------------------
+# extension (gate C06_EXT=1): secret-shared group multiplications g1_mul_* / g2_mul_* / gt_exp_* (lcl, bct, mpc) of
+# relic_mpc_pc.c and the Pedersen commitment cp_ped_com: harness/drv_mpc.c, model/MpcSpec, trace/MpcTrace,
+# design-level model MpcFlows
+EXT_SPEC = "trace/MpcTrace.tla"
+EXT_DRV = ["drv_mpc.c"]
+EXT_HEAP = dict(heap="2g")
+
+
+def EXT_MC_RUNS(quick):
+    runs = [("MpcFlows", "MpcFlows", "share multiplication lcl / bct / mpc as coded over Z_5, first shares of x, P's logarithm, a, b "
+                                     "over Z_5, second shares and c_2 over {0, 1, 4}: the opened values are x - a and p - b for both "
+                                     "parties, the outputs add up to x p", False, EXT_HEAP),
+            ("MpcFlows", "MpcFlows_bad", "Z_5, second shares {0, 4}, triple with c = ab + 1: the outputs NEVER add up to x p", False, EXT_HEAP)]
+    if not quick:
+        runs += [("MpcFlows", "MpcFlows_r5full", "Z_5, EVERY splitting of x, p, a, b, c", False, EXT_HEAP),
+                 ("MpcFlows", "MpcFlows_r7", "Z_7, second shares {0, 1, 6}", False, EXT_HEAP),
+                 ("MpcFlows", "MpcFlows_bad7", "Z_7, second shares {0, 1, 6}, c = ab + 3: never reconstructs", False, EXT_HEAP),
+                 ("MpcFlows", "MpcFlows_r11", "Z_11, second shares {0, 10}", False, EXT_HEAP)]
+    return runs
+
+
+# controls with ONE broken step: must be refuted
+EXT_EXPECTED = [("MpcFlows", "MpcFlows_bothadd", "Reconstruct", "control: both parties add the opened Q to their share of B"),
+                ("MpcFlows", "MpcFlows_nocopy", "Reconstruct", "control: the broadcast does not replicate the opened values to the second party")]
+
+
+def ext_nontrivial(e):
+    # a complete run judged against [x]P, or a commitment judged against [x]G + [r]h
+    if e.get("op") == "gmul":
+        return True
+    return e.get("op") == "ped" and e.get("ret") == 0
+
+
+def ext_run(ev, conf, wd, rng, tier):
+    quick = tier == "quick"
+    core.run_models(ev, EXT_MC_RUNS(quick))
+    if core.COLLECT is None:
+        for x in EXT_EXPECTED:
+            expect_violation(ev, *x)
+    ev.cov["rule_ext"] = (
+        "share multiplication g1_mul / g2_mul / gt_exp _lcl -> _bct -> _mpc, both parties of one run per event, on every "
+        "pairing-friendly curve the build selects: triples from mpc_mt_gen and explicit triples c = ab mod n; every splitting class "
+        "(zero share on either side, share n - 1 on either side, 1, random) of x, a, b, c and of the element's logarithm, one "
+        "dimension at a time; values x, a, b, p in {0, 1, n - 1, small, random}; d = 0, d_i = 0, Q = identity, Q_i = identity, "
+        "P_0 = -P_1, B_0 + Q = identity, all shares zero, all n - 1; output aliasing the opened element and not; deviating triples "
+        "(c = ab + 1, ab - 1, ab + random) must not reconstruct. cp_ped_com: h in {G, 2G, -G, random}, r in {0, 1, n - 1, n, n + 1, "
+        "random, 300 bits}, x in {1, 2, n - 1, random}, commitments equal to the identity, declined inputs h = O, x = 0, x >= n")
+    sch = ev.cov.get("schemes", {})
+    if sch:
+        key = next(k for k in sch if k.startswith("constructive"))
+        sch[key] = sch[key] + ["secret-shared group multiplication g1_mul / g2_mul / gt_exp _lcl, _bct, _mpc (R_0 + R_1 = [x]P by "
+                               "lib/Curve, lib/CurveX, lib/Tower on the logged coordinates)",
+                               "Pedersen commitment cp_ped_com (c = [x]G + [r]h)", "Shamir: every subset of every size >= 2"]
+        sch["not_covered"] = []
+    cover = {}
+
+    def part(label, cfg, cases):
+        if not cases:
+            return
+        c = collections.Counter(x[0].split("-")[0] if x[0].startswith("split") else x[0] for x in cases)
+        cover[label] = dict(sorted(c.items()))
+        conf.run(label, cfg, "mpc", EXT_DRV, [x[1] for x in cases], EXT_SPEC, nontrivial=ext_nontrivial,
+                 min_per_shard=3, driver_timeout=1500, tlc_timeout=3000, heap="2g")
+
+    def config(cfg, q, first_only=False):
+        curves = gen_mpc.probe(cfg, wd, EXT_DRV)
+        if not curves:
+            raise core.InfraError("C06 extension: no pairing-friendly curve selectable in %s" % cfg)
+        g1, g2, gt, ped = [], [], [], []
+        for j, (cv, n) in enumerate(curves):
+            if j > 0 and first_only:
+                break
+            if q:
+                g1 += gen_mpc.gmul_cases(cv, n, 1, rng, 12 if j == 0 else 3)
+                if j == 0:
+                    g2 += gen_mpc.gmul_cases(cv, n, 2, rng, 5)
+                    gt += gen_mpc.gmul_cases(cv, n, 3, rng, 2, cheap=True)
+            else:
+                g1 += gen_mpc.gmul_cases(cv, n, 1, rng, None)
+                g2 += gen_mpc.gmul_cases(cv, n, 2, rng, None)
+                gt += gen_mpc.gmul_cases(cv, n, 3, rng, 16, cheap=True) + gen_mpc.gmul_cases(cv, n, 3, rng, 4)
+            ped += gen_mpc.ped_cases(cv, n, rng, q)
+        part(cfg + "-mpc-g1", cfg, g1 + ped)
+        part(cfg + "-mpc-g2gt", cfg, g2 + gt)
+        ev.cov.setdefault("curves_ext", {})[cfg] = [cv for cv, _ in curves]
+
+    config("std256", quick)
+    if not quick:
+        config("b12-381", True, first_only=True)
+    ev.cov["classes_ext"] = cover
+    # Shamir: every subset of EVERY size (supersets of a qualifying set qualify; the registered part runs sizes k and k - 1)
+    sx = []
+    for q in ["0b", "07", gen_enc.P256_N] + ([] if quick else ["fb", "1fffffffffffffff"]):
+        for n in range(2, 6 if quick else 7):
+            for k in range(2, n + 1):
+                for s in (["r"] if quick else ["r", "0", "n-1"]):
+                    sx.append("sssx %s %s %s %d %d" % (q, gen_enc.seed(rng), s, k, n))
+    events, _ = conf.run("share-all-subsets", "std256", "enc", DRV, sx, SPEC, wraps=WRAPS, nontrivial=nontrivial,
+                         min_per_shard=8, tlc_timeout=3000, driver_timeout=1200, heap="2g")
+    ev.cov["sss_ext"] = {"events": len(events), "subsets": sum(len(e.get("recs", [])) for e in events)}
 
 
 def replay(path, seed):
